@@ -94,6 +94,9 @@ func (h *harness) dataTamperings(th *treeHead, tn int64, tw int) []tcase {
 		return c[h.r.Intn(len(c))]
 	}
 	k := h.r.Intn(len(lay))
+	if !h.thor && k > 40 && h.r.Intn(4) != 0 {
+		k = h.r.Intn(40) // quick tier: mostly near the start of the tile (Entry parses every leaf before k)
+	}
 	l := lay[k]
 	gi := base + int64(k)
 	bit := func() byte { return 1 << uint(h.r.Intn(8)) }
@@ -622,6 +625,85 @@ func (h *harness) ckptCases() {
 	}
 }
 
+// ---- a SYNTHETIC log with RFC 6962 archival leaves (the real sequencer never writes them) ------------------------------
+
+func (h *harness) synthetic() *treeHead {
+	lg := &fixtureLog{sid: "S", name: "example.com/synthetic", key: h.A.key, keyID: h.A.keyID, spki: h.A.spki,
+		logID: h.A.logID, store: map[string][]byte{}}
+	n := 6
+	var tile []byte
+	var stored []tlog.Hash
+	hr := tlog.HashReaderFunc(func(idx []int64) ([]tlog.Hash, error) {
+		var out []tlog.Hash
+		for _, i := range idx {
+			out = append(out, stored[i])
+		}
+		return out, nil
+	})
+	for i := 0; i < n; i++ {
+		e := &sunlight.LogEntry{Certificate: []byte(fmt.Sprintf("synthetic certificate %d", i)), LeafIndex: int64(i), Timestamp: 1_600_000_000_000 + int64(i)}
+		if i == 1 || i == 4 {
+			e.IsPrecert = true
+			e.IssuerKeyHash[3] = byte(i)
+			e.PreCertificate = []byte("synthetic precertificate")
+		}
+		if i == 2 || i == 4 {
+			e.RFC6962ArchivalLeaf, e.LeafIndex = true, 0
+		}
+		lg.truth = append(lg.truth, e)
+		tile = sunlight.AppendTileLeaf(tile, e)
+		hs, err := tlog.StoredHashes(int64(i), e.MerkleTreeLeaf(), hr)
+		if err != nil {
+			panic(err)
+		}
+		stored = append(stored, hs...)
+	}
+	root, err := tlog.TreeHash(int64(n), hr)
+	if err != nil {
+		panic(err)
+	}
+	for _, t := range tlog.NewTiles(8, 0, int64(n)) {
+		d, err := tlog.ReadTileData(t, hr)
+		if err != nil {
+			panic(err)
+		}
+		lg.store[sunlight.TilePath(t)] = d
+	}
+	lg.store[dataPath(0, n)] = tile
+	h.stores["S"] = lg.store
+	h.dumpStore(lg)
+	th := &treeHead{tid: "S6", lg: lg, tree: tlog.Tree{N: int64(n), Hash: root}}
+	h.emit("tree|%s|%s|%d|%d|=>|%x", th.tid, lg.sid, lg.keyID, n, root[:])
+	return th
+}
+
+func (h *harness) archivalCases() {
+	th := h.synthetic()
+	for _, allow := range []bool{false, true} {
+		for _, s := range []int64{0, 2, 3, 5} {
+			h.runEntries(th, allow, s%2 == 0, s, "archival-leaves", nil)
+		}
+		for i := int64(0); i < 6; i++ {
+			h.runEntry(th, allow, i, "archival-leaves", nil)
+		}
+		for _, i := range []int64{1, 2, 4} {
+			sc := h.sctCases(th, i)[0]
+			sc.label = "sct-authentic-archival-log"
+			h.runIncl(th, allow, sc)
+		}
+		// the index check of Entry is skipped for archival leaves: an SCT naming leaf 2 for archival entry 4
+		sc := h.sctCases(th, 4)[0]
+		ext, _ := sunlight.MarshalExtensions(sunlight.Extensions{LeafIndex: 2})
+		var s ct.SignedCertificateTimestamp
+		if _, err := tls.Unmarshal(sc.sct, &s); err == nil {
+			s.Extensions = ext
+			sc.sct, _ = tls.Marshal(s)
+			sc.label = "sct-of-archival-4-naming-archival-2"
+			h.runIncl(th, allow, sc)
+		}
+	}
+}
+
 // ---- everything ----------------------------------------------------------------------------------------------------------
 
 // p: always in the thorough tier, with probability x in the quick tier
@@ -658,13 +740,23 @@ func (h *harness) runAll(big int) {
 		}
 		for _, s := range starts(n) {
 			for _, all := range []bool{false, true} {
-				if h.thor || n < 255 || h.p(0.3) {
+				if h.thor || n < 255 || h.p(0.2) {
 					h.runEntries(th, s%2 == 0, all, s, "honest", nil)
 				}
 			}
 		}
+		// start <= -256 is outside the modelled domain (negative tile numbers): monitor only
+		for _, s := range []int64{-256, -257, -1000} {
+			rt := h.server(A, nil)
+			c := h.client(&A.key.PublicKey, rt, false)
+			ys, end := h.iterate(c, th.tree, s == -257, s)
+			h.emit("mon_negstart|%s|%d|%s:%d|=>|%s", th.tid, s, strings.SplitN(end, "(", 2)[0], len(ys), h.monYield(th, s, ys))
+			h.stats["negstart_"+strings.SplitN(end, "(", 2)[0]]++
+		}
 		for _, i := range []int64{-1, 0, 1, 254, 255, 256, 257, n - 1, n, n + 1, int64(h.r.Intn(int(n)))} {
-			h.runEntry(th, false, i, "honest", nil)
+			if i < 2 || i >= n-1 || h.p(0.4) {
+				h.runEntry(th, false, i, "honest", nil)
+			}
 		}
 		h.runEntry(th, true, int64(h.r.Intn(int(n))), "honest", nil)
 
@@ -684,7 +776,7 @@ func (h *harness) runAll(big int) {
 			tcs := h.dataTamperings(th, t[0], int(t[1]))
 			for _, tc := range tcs {
 				// quick tier: every class on the cheap tiles (1, 88, 255 leaves), a sample on each full tile
-				if !h.thor && t[1] == 256 && h.r.Intn(100) >= 35 {
+				if !h.thor && t[1] == 256 && h.r.Intn(100) >= 22 {
 					continue
 				}
 				h.stats["tamper_class_"+strings.SplitN(tc.label, ":", 2)[0]]++
@@ -770,6 +862,7 @@ func (h *harness) runAll(big int) {
 		}
 	}
 	h.ckptCases()
+	h.archivalCases()
 }
 
 // the tree of more than 50 data tiles: the second batch of torchwood's Entries loop
